@@ -44,7 +44,7 @@ type c17Case struct {
 	Must   bool   // download: MustDownload
 	Sum    bool   // wget: a checksum is announced
 	WLen   int    // wget: WgetCommand.Length is Size+WLen-1 when WLen != 0 (so WLen = 1 announces the true length)
-	Corr   string // "", data:<k> (one byte of the k-th data chunk flipped), len:<delta>, sha (first digest byte flipped)
+	Corr   string // "", data:<k> (one byte of the k-th data chunk flipped), len:<delta>, sha (first digest byte flipped), shatrunc:<n> (digest cut to n bytes)
 	Class  string
 
 	DefaultLimits bool // keep the library's default MaxContentLength on transport and handler (probe only, not part of the input text)
@@ -192,6 +192,14 @@ func (p *c17Owner) alter(dir, name string, body []byte) []byte {
 			return body
 		}
 		out, _ := cbor.Marshal(c17FlipFirst(d))
+		p.applied()
+		return out
+	case kind == "shatrunc" && name == "sha-384":
+		var d []byte
+		if err := cbor.Unmarshal(body, &d); err != nil || len(d) <= arg {
+			return body
+		}
+		out, _ := cbor.Marshal(d[:arg])
 		p.applied()
 		return out
 	case kind == "data" && name == "data":
